@@ -71,6 +71,6 @@ for wrapper, callee, settings, props in LINKS:
         mode='slice', unexpected_exceptions='allowed',
         tracked=list(settings),
         params={},
-        ghost=dict(forward={callee: list(settings)}),
+        ghost=dict(forward={callee: list(settings)}, only_kinds=['forward']),
         min_obligations=len(settings),
     )
